@@ -202,6 +202,7 @@ def run(res: Results, idx: Index, tier: str) -> None:
     else:
         res.violation("R-C07a", f"{PS}:{fp.node.lineno}", key, "some instance leaf / attribute does not contribute a value fingerprint: modules with different weights share one body under unique=True", fp.qualname)
     rule_d(res, idx)
+    rule_e(res, idx)
     vf = idx.func(PS, "FunctionPlugin._value_fingerprint")
     key = f"{PS}::FunctionPlugin._value_fingerprint::content"
     rets = [r for r in walk_no_nested(vf.node) if isinstance(r, ast.Return) and isinstance(r.value, ast.Tuple)]
@@ -211,6 +212,75 @@ def run(res: Results, idx: Index, tier: str) -> None:
         res.ok("R-C07a", f"{PS}:{vf.node.lineno}", key, f"{len(rets)} return forms each carry the literal, a digest of the bytes or repr(value)", vf.qualname)
     else:
         res.violation("R-C07a", f"{PS}:{(weak or [vf.node])[0].lineno}", key, f"a return form of _value_fingerprint carries no content of the value (`{src(weak[0].value) if weak else ''}`)", vf.qualname)
+
+
+# ---------------------------------------------------------------------------------------------- R-C07e
+ORDER_ERASING_CALLS = {"sorted", "set", "frozenset", "reversed"}
+
+
+def _order_events(fn: ast.AST, name: str):
+    """In-place reorderings of list `name` and order-erasing re-bindings (`name = sorted(name)`)."""
+    ev = []
+    for c in walk_no_nested(fn):
+        if isinstance(c, ast.Call) and isinstance(c.func, ast.Attribute) and isinstance(c.func.value, ast.Name) and c.func.value.id == name and c.func.attr in ("sort", "reverse"):
+            ev.append((c, f"{name}.{c.func.attr}()"))
+        if isinstance(c, ast.Assign) and any(isinstance(t, ast.Name) and t.id == name for t in c.targets) and isinstance(c.value, ast.Call) \
+                and (call_name(c.value) or "") in ORDER_ERASING_CALLS | {"list", "tuple"} and any(isinstance(x, ast.Call) and (call_name(x) or "") in ORDER_ERASING_CALLS for x in ast.walk(c.value)) \
+                and name in names_in(c.value):
+            ev.append((c, f"{name} = {src(c.value, 40)}"))
+    return ev
+
+
+def _erasing_use(e: ast.AST, name: str):
+    """`name` consumed under sorted()/set()/frozenset()/reversed() inside expression e."""
+    for x in ast.walk(e):
+        if isinstance(x, ast.Call) and (call_name(x) or "") in ORDER_ERASING_CALLS and any(isinstance(y, ast.Name) and y.id == name for a in x.args for y in ast.walk(a)):
+            return x
+    return None
+
+
+def rule_e(res: Results, idx: Index) -> None:
+    """The callee's extra inputs are declared in the order of `dynamic_entries`, each call passes its operands in
+    that order, and the dedup key lists `capture_items`, appended pairwise with the entries.  If the key forgets the
+    order (sorted / set) or one of the two lists is reordered without the other, two calls whose keywords come in a
+    different order share one body while their operands arrive permuted."""
+    res.rule("R-C07e", "the dedup key keeps the order of the captured parameters, and the capture list is never reordered apart from the declared inputs", floor=2)
+    f = idx.func(PS, "FunctionPlugin._lower_and_call")
+    du = defuse(f.node)
+    lists = {}
+    for nm in ("capture_items", "dynamic_entries"):
+        if nm not in du.defs:
+            raise AnalysisError(f"_lower_and_call: local `{nm}` not found (anchor changed)")
+        lists[nm] = _order_events(f.node, nm)
+    key = f"{PS}::FunctionPlugin._lower_and_call::capture-order"
+    site = f"{PS}:{f.node.lineno}"
+    ce, de = lists["capture_items"], lists["dynamic_entries"]
+    if ce and not de:
+        res.violation("R-C07e", f"{PS}:{ce[0][0].lineno}", key, f"`{ce[0][1]}` reorders the key's capture list but not `dynamic_entries`, which fixes the order of the function's inputs and of each call's operands: calls that pass the same keywords in a different order share one body and feed it permuted operands", f.qualname)
+    elif de and not ce:
+        res.violation("R-C07e", f"{PS}:{de[0][0].lineno}", key, f"`{de[0][1]}` reorders the declared inputs but not the key's capture list", f.qualname)
+    elif ce and de:
+        res.unresolved("R-C07e", f"{PS}:{ce[0][0].lineno}", key, "both lists are reordered; whether by the same key is not decided", f.qualname)
+    else:
+        res.ok("R-C07e", site, key, "neither list is reordered between the parameter loop and the key", f.qualname)
+    # order-erasing consumption on the way into the key
+    n = 0
+    for fn_q, pname in (("FunctionPlugin._lower_and_call", "capture_items"), ("FunctionPlugin._build_unique_signature", "capture_items")):
+        g = idx.func(PS, fn_q)
+        for st in walk_no_nested(g.node):
+            if not isinstance(st, (ast.Assign, ast.AnnAssign, ast.Return, ast.Expr)):
+                continue
+            val = getattr(st, "value", None)
+            if val is None or pname not in names_in(val):
+                continue
+            n += 1
+            k2 = f"{PS}::{fn_q}::capture-use::{src(val, 50)}"
+            x = _erasing_use(val, pname)
+            if x is not None:
+                res.violation("R-C07e", f"{PS}:{st.lineno}", k2, f"`{src(x, 50)}` drops the order of the captured parameters from the dedup key while the function's inputs keep the call's keyword order", fn_q)
+            else:
+                res.ok("R-C07e", f"{PS}:{st.lineno}", k2, "order-preserving use", fn_q)
+    res.analysed["capture_list_uses"] = n
 
 
 # ---------------------------------------------------------------------------------------------- R-C07d
